@@ -12,6 +12,7 @@ GLOBAL_TRUSTED = [
 LEMMAS = {}
 # contract cases that legitimately have no normal exit (e.g. "no socket": always raises)
 NEVER_RETURNS = {"websocket._socket:recv/none", "websocket._socket:send/bytes-none", "websocket._socket:send/str-none",
+                 "websocket._dispatcher:DispatcherBase.send/none", "websocket._dispatcher:WrappedDispatcher.send/none",
                  "websocket._http:connect/proxy-socks,resolve"}
 MODULES = [abnf, recv, core, url, app, http, net, extra]
 COST = {}
@@ -104,7 +105,8 @@ PROPS = {
     "C08": dict(
         functions=[K + "WebSocket.__init__", K + "WebSocket.close", K + "WebSocket.shutdown", K + "WebSocket.abort", K + "WebSocket.send_close",
                    K + "WebSocket.send", K + "WebSocket.send_frame", K + "WebSocket._send", K + "WebSocket._recv", SK + "send", SK + "recv",
-                   K + "WebSocket.recv_data_frame", K + "WebSocket.recv"],
+                   K + "WebSocket.recv_data_frame", K + "WebSocket.recv", D_ + "DispatcherBase.send", D_ + "WrappedDispatcher.send",
+                   A + "frame_buffer.recv_strict", K + "WebSocket.settimeout"],
         lemmas=[],
         trusted_base=[T_TRANSPORT, "assumed contracts of sock.close()/shutdown()/settimeout()/gettimeout() and time.time() (non-decreasing clock)"],
         assumptions=["object invariant WSI (no transport => unconnected; auto_close_frames <= 1; auto_close_frames = 1 => unconnected) is "
@@ -114,7 +116,7 @@ PROPS = {
                      "caller's timeout before the wait loop, and no new wait for a frame is started once a clock reading of that iteration lies "
                      "past the deadline; that a blocked read really returns after the socket timeout is the transport's assumed behaviour"]),
     "C13": dict(
-        functions=[PA + "WebSocketApp._callback", PA + RFN + "read", D_ + "Dispatcher.read", D_ + "SSLDispatcher.read",
+        functions=[PA + "WebSocketApp._callback", PA + RFN + "read", D_ + "Dispatcher.read", D_ + "SSLDispatcher.read", D_ + "SSLDispatcher.select",
                    A + "frame_buffer.recv_frame", A + "frame_buffer.recv_strict", K + "WebSocket.recv_data_frame", SETSOCK + "@@reconnect=on,external"],
         functions_thorough=[SETSOCK],
         lemmas=[], bounded=[appsim.bounded("C13")], trusted_base=[T_TRANSPORT, T_CB, T_SEL],
@@ -122,7 +124,8 @@ PROPS = {
         not_decided=["the time at which a callback fires (only its mechanism, no over-read by the parser, is proved)"]),
     "C14": dict(
         functions=[PA + RFN + "teardown", PA + RFN + "read", PA + RFN + "handleDisconnect", PA + "WebSocketApp.run_forever",
-                   PA + "WebSocketApp._get_close_args", PA + "WebSocketApp._stop_ping_thread", PA + "WebSocketApp._callback", K + "WebSocket.close", SETSOCK + "@@reconnect=off,external"],
+                   PA + "WebSocketApp._get_close_args", PA + "WebSocketApp._stop_ping_thread", PA + "WebSocketApp._callback", K + "WebSocket.close", SETSOCK + "@@reconnect=off,external",
+                   D_ + "Dispatcher.read", D_ + "SSLDispatcher.read"],
         functions_thorough=[SETSOCK, D_ + "DispatcherBase.reconnect"],
         lemmas=[], bounded=[appsim.bounded("C14")], trusted_base=[T_TRANSPORT, T_CB, T_SEL, T_THREAD],
         assumptions=[BOUNDED_COMPOSITION + " (here: the try/except/finally of run_forever reaches teardown on every exit path; the return value)"],
@@ -140,7 +143,7 @@ PROPS = {
         not_decided=["that an attempt eventually succeeds; the real length of the pause (time.sleep is assumed to sleep)"]),
     "C16": dict(
         functions=[PA + "WebSocketApp.run_forever@@reconnect=off,external", PA + RFN + "check", PA + "WebSocketApp._send_ping", PA + "WebSocketApp._start_ping_thread",
-                   PA + "WebSocketApp._stop_ping_thread", D_ + "Dispatcher.read", D_ + "SSLDispatcher.read", PA + RFN + "read", K + "WebSocket.ping",
+                   PA + "WebSocketApp._stop_ping_thread", D_ + "Dispatcher.read", D_ + "SSLDispatcher.read", D_ + "SSLDispatcher.select", PA + RFN + "read", K + "WebSocket.ping",
                    PA + RFN + "handleDisconnect", PA + RFN + "teardown"],
         lemmas=["lemma:timing"], bounded=[appsim.bounded("C16")],
         trusted_base=[T_THREAD, T_SEL, "time.time() is a non-decreasing clock",
@@ -166,7 +169,7 @@ PROPS = {
                      "dict / dict with own key; caller strings contain no CR/LF (the syntax of each line is the caller's responsibility then)"],
         not_decided=["acceptance by an independent server: BOUNDED only (websockets 17 server protocol on a URL x option grid)"]),
     "C11": dict(
-        functions=[HK + "_ssl_socket", HK + "connect"], lemmas=[], bounded=[native_c11.bounded],
+        functions=[HK + "_ssl_socket", HK + "connect", U_ + "parse_url"], lemmas=[], bounded=[native_c11.bounded],
         trusted_base=["assumed contract of ssl.SSLContext / OpenSSL: a context with verify_mode=CERT_REQUIRED and check_hostname=True rejects untrusted "
                       "chains and wrong names during wrap_socket, before any application byte", "os.environ / os.path.isfile / isdir are unconstrained"],
         assumptions=["option-combination coverage of _ssl_socket: all combinations of the verification keys (cert_reqs, check_hostname, ca_certs, "
@@ -211,7 +214,7 @@ PROPS = {
         not_decided=["SimpleCookieJar.add / get for arbitrary strings (bounded enumeration only)"]),
     "C12": dict(
         functions=[K + "WebSocket.send_frame", K + "WebSocket._send", SK + "send", K + "WebSocket.recv", A + "frame_buffer.recv_frame",
-                   K + "WebSocket.recv_data_frame", K + "WebSocket.__init__"],
+                   K + "WebSocket.recv_data_frame", K + "WebSocket.__init__", D_ + "DispatcherBase.send", D_ + "WrappedDispatcher.send"],
         lemmas=[],
         trusted_base=[T_TRANSPORT, "threading.Lock is a mutex with release/acquire ordering (assumed contract); all writers go through "
                                    "WebSocket._send, whose contract requires the send lock"],
